@@ -10,7 +10,7 @@ import os, random, re, shutil, tempfile, glob
 from .. import impl, coqrun, sheetcases as SC
 from ..gens import sheet as S
 
-FEATURES = 'media,amp,keyframes,fontface,stmt,str,rstr,istr,url,attr,pseudo2,pseudofn,var,mixin'.split(',')
+FEATURES = 'media,amp,keyframes,fontface,stmt,str,rstr,istr,url,attr,pseudo2,pseudofn,var,mixin,custom'.split(',')
 RULE = ('(a) raw and filtered token streams of the model lexer vs the real lexer; (b) base program vs 3 variants differing only in whitespace-run content, '
         'comments at statement boundaries and last semicolons, all %d option vectors sampled; (c) corpus files vs variants built from the real lexer token positions; '
         'distinct = distinct (program, layout); non-trivial = the variant has a newline-only or CRLF run inside a selector/value, a comment whose body contains ; { } quotes or //, '
@@ -24,7 +24,7 @@ EXPLANATION = ('proved in Coq on the lexer model: for every lexer mode and every
                'never produce a token (C12_gap_*); that the parser gives the same tree for the same filtered stream is a fact about LALR tables and is decided by the '
                'correspondence (b),(c) on the real compiler, hence partial')
 
-WS_RUNS = [' ', '  ', '\t', ' \t ', '\n', '\r\n', '\n\n', ' \n', '\n ', ' \r\n ', '\r\n\r\n', '\t\n\t', '   ', '\f', '\v ']
+WS_RUNS = [' ', '  ', '\t', ' \t ', '\n', '\r\n', '\n\n', ' \n', '\n ', ' \r\n ', '\r\n\r\n', '\t\n\t', '   ', '\f', '\v ', '\r', '\r\r', ' \r', '\r\t']
 COMMENT_BODIES = [' c ', ' ; { } " \' // ', '', ' multi\n line ', '* stars **', ' } ', ' { ', ' @x: 1; ', ' .a{color:red} ', " it's ", ' "unbalanced ', '/ slash /', ' url(x) ']
 LINE_BODIES = [' line', ' ; { } " \' /* */', '', ' } ', ' { ', " it's", ' @media']
 MARK = 'ZQXJ'
@@ -73,6 +73,10 @@ class VLayout(S.Layout):
             return '//' + MARK + b + r.choice(['\n', '\r\n'])
         b = r.choice(COMMENT_BODIES)
         self.stats['comments'] += 1
+        if r.random() < 0.15:
+            # the comment text starts with a slash or consists of stars: '/*/ ... */', '/**/', '/***/'
+            self.stats['tricky_comments'] += 1
+            return r.choice(['/*/' + MARK + b + '*/', '/**/', '/***/', '/*/*/', '/*/ ' + MARK + ' } /**/'])
         if any(ch in b for ch in ';{}"\'/'):
             self.stats['tricky_comments'] += 1
         return '/*' + MARK + b + '*/'
